@@ -428,8 +428,16 @@ def main(argv):
                     ob = {"name": f"{u['id']}::{names[0]}", "contract": True, "status": "refuted",
                           "note": "obligation undecided on this tree (" + r.get("reason", "")[:300] + "); the witness search replayed a failing input on the real code"}
                     k = match_known(known, prop, r, ob)
+                    if k and k.get("witness_only"):
+                        allowed = [x for x in k["witness_only"].split("|") if x]
+                        lines = [l for l in wit.get("witness_lines", []) if l.startswith("WITNESS")]
+                        if not lines or not all(any(x in l for x in allowed) for l in lines) or any(l.startswith("...") for l in wit.get("witness_lines", [])):
+                            k = None
                     if k:
+                        # the replayed inputs are those of a listed finding - but the unit itself could not be decided
+                        # on this tree, and a known finding never hides that
                         known_hits.append((k, ob))
+                        undecided.append((u, r))
                         continue
                     rp = os.path.join(out_root, "replay/out", f"{prop}-{r['unit']}-{names[0]}.json")
                     json.dump({"property": prop, "unit": r["unit"], "obligation": ob["name"], "engine": r["engine"],
